@@ -81,6 +81,7 @@ type Source struct {
 	Attest, HasBase, HasForeign, HasEmptyTar, HasNames, HasInnerTar bool
 	HasInlineCfg, HasInlineLayer, HasInlineChild, HistNoCreated    bool
 	HasStripFile, IndexAnnot                                        bool
+	UniformTime                                                     bool // every tar entry of every layer carries tUniform (a build with a fixed epoch)
 	Comps                                                           map[string]bool
 	MinLayers                                                       int
 	BaseOld, BaseNew                                                string // digests in the base repository
@@ -132,6 +133,9 @@ func (s *Source) ShapeKey() string {
 	if s.HasForeign {
 		k += "+foreign"
 	}
+	if s.UniformTime {
+		k += "+uniformtime"
+	}
 	if s.HasInlineCfg || s.HasInlineLayer || s.HasInlineChild {
 		k += "+inline"
 	}
@@ -150,6 +154,11 @@ var tarTimes = []time.Time{
 	time.Date(2025, 5, 5, 5, 5, 5, 0, time.UTC),
 }
 
+// tUniform is the single time stamp of a source built with a fixed epoch.
+var tUniform = tarTimes[1]
+
+const tUniformStr = "2021-06-01T12:00:00Z"
+
 func tarBytes(fn func(tw *tar.Writer)) []byte {
 	var b bytes.Buffer
 	tw := tar.NewWriter(&b)
@@ -167,13 +176,16 @@ func fileBody(rng *rand.Rand, n int) []byte {
 }
 
 // layerTar builds a small real tar. It returns the bytes and the file names in it.
-func layerTar(rng *rand.Rand, idx int, names, innerTar, strip bool) ([]byte, []string) {
+func layerTar(rng *rand.Rand, idx int, names, innerTar, strip, uniform bool) ([]byte, []string) {
 	var files []string
 	raw := tarBytes(func(tw *tar.Writer) {
 		add := func(h *tar.Header, body []byte) {
 			h.Size = int64(len(body))
 			if h.ModTime.IsZero() {
 				h.ModTime = tarTimes[rng.Intn(len(tarTimes))]
+			}
+			if uniform {
+				h.ModTime = tUniform
 			}
 			if names && rng.Intn(2) == 0 {
 				h.Uname, h.Gname = "root", "wheel"
@@ -183,6 +195,9 @@ func layerTar(rng *rand.Rand, idx int, names, innerTar, strip bool) ([]byte, []s
 				h.Format = tar.FormatPAX
 				h.AccessTime = tarTimes[rng.Intn(len(tarTimes))]
 				h.ChangeTime = tarTimes[rng.Intn(len(tarTimes))]
+				if uniform {
+					h.AccessTime, h.ChangeTime = tUniform, tUniform
+				}
 			case 1:
 				h.Format = tar.FormatGNU
 			}
@@ -222,11 +237,13 @@ func layerTar(rng *rand.Rand, idx int, names, innerTar, strip bool) ([]byte, []s
 	return raw, files
 }
 
-func compress(raw []byte, comp string) []byte {
+// compress packs a layer the way some other tool might have: the gzip level is not the one the
+// client itself would use, so a layer that is repackaged without need gets a different digest.
+func compress(raw []byte, comp string, level int) []byte {
 	var b bytes.Buffer
 	switch comp {
 	case "gzip":
-		w := gzip.NewWriter(&b)
+		w, _ := gzip.NewWriterLevel(&b, level)
 		_, _ = w.Write(raw)
 		_ = w.Close()
 	case "zstd":
@@ -337,7 +354,7 @@ func (b *builder) layer(family string, idx int, allowSpecial bool) layerBuilt {
 		names := rng.Intn(3) == 0
 		inner := rng.Intn(5) == 0
 		strip := rng.Intn(3) == 0
-		raw, lf.Files = layerTar(rng, idx, names, inner, strip)
+		raw, lf.Files = layerTar(rng, idx, names, inner, strip, s.UniformTime)
 		s.HasNames = s.HasNames || names
 		s.HasInnerTar = s.HasInnerTar || inner
 		s.HasStripFile = s.HasStripFile || strip
@@ -347,7 +364,7 @@ func (b *builder) layer(family string, idx int, allowSpecial bool) layerBuilt {
 		comp, lf.Comp = "gzip", "gzip"
 		s.HasForeign = true
 	}
-	blob := compress(raw, comp)
+	blob := compress(raw, comp, []int{gzip.DefaultCompression, gzip.BestSpeed, gzip.BestCompression, gzip.HuffmanOnly}[rng.Intn(4)])
 	lf.MT = layerMT(family, comp, lf.Foreign)
 	o := b.put(lf.MT, blob, false)
 	lf.Digest, lf.DiffID, lf.Size = o.Digest, la.Digest("sha256", raw), len(blob)
@@ -495,6 +512,7 @@ func BuildSource(seed int64, addr string) *Source {
 		s.Family = "docker"
 	}
 	s.Index = rng.Intn(5) < 2
+	s.UniformTime = rng.Intn(5) == 0
 	nImg := 1
 	if s.Index {
 		nImg = 2 + rng.Intn(2)
